@@ -129,6 +129,12 @@ def violates(w, r):
         want = ['[%s]' % h, '[%s/x]' % h, '[a~]', '[~]', '[~]', h, '']
         if ls != want:
             return True, 'stdout %r != expected %r' % (ls, want)
+    if w.get('expect_home_tilde2'):
+        ls = r['stdout'].split('\n')
+        h = ls[-2] if len(ls) >= 2 else ''
+        want = ['[%s/n~]' % h, '[%s/d/~x]' % h, h, '']
+        if ls != want:
+            return True, 'stdout %r != expected %r' % (ls, want)
     if 'expect_only_files' in w:
         extra = [f for f in r.get('listing', []) if f not in w['expect_only_files'] and f != 'w.sh']
         if extra:
